@@ -41,7 +41,7 @@ def space(tier, seed):
     ch = level_choices(tier)
     cases = []
     # override-slash: a leading NAME=VALUE word whose value contains `/` is an override, not a directory: like `plain`
-    forms = ["plain", "dir-slash", "dotdot", "explicit", "explicit-wd", "override-slash"]
+    forms = ["plain", "dir-slash", "dotdot", "explicit", "explicit-wd", "override-slash", "dir-missing"]
     rng = C.case_rng(seed, 0, "c16")
     allc = list(itertools.product(ch, repeat=depth))
     total = len(allc) * depth * len(forms)
@@ -98,6 +98,10 @@ def run_case(c):
             rel = os.path.relpath(paths[target], paths[inv])
             argv = [rel + "/r"]
             start = target
+        elif c["form"] == "dir-missing":
+            # `just DIR/r` where DIR does not exist or is a regular file: there is no such place to run `just r` from
+            open(os.path.join(cwd, "plain.txt"), "w").write("x\n")
+            argv = [["nosuch/r", "nosuch/deeper/r", "plain.txt/r", "./nosuch/r"][(inv + len(c["levels"][0]["placement"])) % 4]]
         elif c["form"] == "dotdot" and inv > 0:
             argv = ["../r"]
             start = inv - 1
@@ -206,6 +210,11 @@ def run(report):
             stats["ran_above_start"] += 1
         distinct.add(json.dumps([c, obs], sort_keys=True))
         replay = {"case": c, "argv": r["argv"], "cwd": r["cwd"], "dirs": r["paths"], "observed": r["obs"], "expected": want}
+        if c["form"] == "dir-missing":
+            if "ran" in obs or r["obs"]["rc"] == 0:
+                report.failure("c16-ran-from-missing-directory", "`just %s`: the directory does not exist, yet %s" % (r["argv"][0], obs),
+                               dict(replay, expected="an error, nothing runs"))
+            continue
         if obs != want:
             what = "ran-wrong-justfile" if "ran" in obs and "ran" in want and (obs["ran"], obs["name"]) != (want["ran"], want["name"]) else (
                 "wrong-cwd" if "ran" in obs and "ran" in want else "wrong-outcome")
